@@ -126,6 +126,7 @@ PLANS["C12"] = {
              "solution, verdict function and warm start confirm). non-trivial LP = has at least one non-singular basis"),
     "quick": [fam("basis-S0q1", "prod", "basis", {"fam": "S0q1", "files": 0}, weight=3, crash_props=["C17", "C12"]),
               fam("basis-S1q", "prod", "basis", {"fam": "S1q", "files": 0}, weight=2, crash_props=["C17", "C12"]),
+              fam("basis-Sbq", "prod", "basis", {"fam": "Sbq", "files": 0}, weight=2, crash_props=["C17", "C12"]),
               lp("S0q1-k1", "prodl1", "S0q1", "k1", weight=3)],
     "thorough": [fam("basis-S0c", "prod", "basis", {"fam": "S0c", "files": 0}, weight=6, crash_props=["C17", "C12"]),
                  fam("basis-S1r", "prod", "basis", {"fam": "S1r", "files": 0, "verify": 0}, weight=6, crash_props=["C17", "C12"]),
@@ -145,6 +146,7 @@ PLANS["C14"] = {
              "every history, followed by every other operation, and the basis must still be there"),
     "quick": [fam("basisfile-S1q", "prod", "basis", {"fam": "S1q", "files": 1, "verify": 0}, weight=2, crash_props=["C17", "C14"]),
               fam("basisfile-S0q1", "prod", "basis", {"fam": "S0q1", "files": 1, "verify": 0}, weight=2, crash_props=["C17", "C14"]),
+              fam("basisfile-Sbq", "prod", "basis", {"fam": "Sbq", "files": 1, "verify": 0}, weight=2, crash_props=["C17", "C14"]),
               hist("hist-d2-san", "san", 2, weight=3), hist("hist-d3r-prod", "prod", 3, reduced=1, weight=3)],
     "thorough": [fam("basisfile-S0c", "prod", "basis", {"fam": "S0c", "files": 1, "verify": 0}, weight=6, crash_props=["C17", "C14"]),
                  fam("basisfile-S1r", "prod", "basis", {"fam": "S1r", "files": 1, "verify": 0}, weight=6, crash_props=["C17", "C14"]),
@@ -164,7 +166,7 @@ PLANS["C16"] = {
     "quick": [fam("cpar-prod", "prod", "cpar", {}, weight=2, crash_props=["C17", "C16"]),
               fam("lowp-SN1-prod", "prod", "lowp", {"fam": "SN1"}, weight=2, crash_props=["C17", "C16"]),
               fam("copy-s1-san", "san", "copy", {"steps": 1}, weight=3, crash_props=["C17", "C16"])],
-    "deadline": {"quick": 1200, "thorough": 3000},
+    "deadline": {"quick": 1200, "thorough": 1500},
     "thorough": [fam("copy-s2-prod", "prod", "copy", {"steps": 2}, weight=10, crash_props=["C17", "C16"]),
                  fam("copy-s1-san", "san", "copy", {"steps": 1}, weight=3, crash_props=["C17", "C16"]),
                  fam("lowp-SN1-san", "san", "lowp", {"fam": "SN1"}, weight=2, crash_props=["C17", "C16"]),
@@ -377,7 +379,7 @@ PLANS["C17"] = {
                                    hist("hist-d3r-prod", "prod", 3, reduced=1, weight=2), lp("S0c-k1-prodl1", "prodl1", "S0c", "k1", weight=6)]
                 + [twin(hist("hist-d3r-prod", "prod", 3, reduced=1, weight=2)), twin(lp("S0c-k1-prodl1", "prodl1", "S0c", "k1", weight=6))] + _det_quick + [twin(r) for r in _det_quick],
     "post": c17_post,
-    "deadline": {"quick": 1200, "thorough": 5400},
+    "deadline": {"quick": 1200, "thorough": 2400},
     "bounds": {"quick": "sanitizer build: depth-2 histories, 35k invalid calls, S0mk x entry/pricing/scaling configurations, rendered and written files, all bases of S1q, the first 8000 copy interleavings (all of them in C16/C18 quick and here in thorough); double execution of depth-2 histories, S0q1 x K<=1 and MPS chains",
                "thorough": "adds depth-3 reduced histories and S0c/T on the sanitizer build, Valgrind memcheck on depth-2 histories and S0q1, double execution of depth-3 histories and S0c x K<=1"},
     "evidence": {"states": ["histories", "instances", "invalid_calls", "bases"], "transitions": ["api_transitions", "executions"], "nontrivial": ["histories", "instances_nontrivial", "invalid_calls"]},
